@@ -83,6 +83,7 @@ int main(int argc, char** argv) {
 	registerCoreCmds();
 	registerValueCmds();
 	registerXformCmds();
+	registerConcCmds();
 
 	std::string l;
 	while (readLine(l)) {
